@@ -186,5 +186,32 @@ pub fn run(em: &mut Emit, thorough: bool, seed: u64) {
         };
         emit_program(em, "[a + b, size(a + b) == size(a) + size(b), a, b]", &spec, "nt=1;kind=additive-str");
         emit_program(em, "[la + lb, size(la + lb) == size(la) + size(lb), la, lb, (la + lb) + la]", &spec, "nt=1;kind=additive-list");
+        // every ownership combination: shared context buffers, fresh literals and temporaries on
+        // either side, of different lengths; order of the elements / characters is what is compared
+        fn cat(rng: &mut Rng, depth: u32, list: bool) -> String {
+            if depth == 0 || rng.chance(1, 3) {
+                return if list {
+                    match rng.below(4) {
+                        0 => "la".to_string(),
+                        1 => "lb".to_string(),
+                        _ => format!("[{}]", (0..rng.below(6)).map(|_| format!("{}", rng.range(0, 9))).collect::<Vec<_>>().join(", ")),
+                    }
+                } else {
+                    match rng.below(4) {
+                        0 => "a".to_string(),
+                        1 => "b".to_string(),
+                        _ => format!("'{}'", (0..rng.below(6)).map(|_| *rng.pick(&["x", "y", "é", "0"])).collect::<String>()),
+                    }
+                };
+            }
+            let l = cat(rng, depth - 1, list);
+            let r = cat(rng, depth - 1, list);
+            if rng.chance(1, 2) { format!("{} + ({})", l, r) } else { format!("({}) + {}", l, r) }
+        }
+        for list in [true, false] {
+            let e = cat(&mut rng, 3, list);
+            let (x, y) = if list { ("la", "lb") } else { ("a", "b") };
+            emit_program(em, &format!("[{}, {}, {}]", e, x, y), &spec, if list { "nt=1;kind=additive-list-own" } else { "nt=1;kind=additive-str-own" });
+        }
     }
 }
